@@ -24,6 +24,7 @@ missing-value filler, names are unique and the untouched ones unchanged, counter
 import contextlib
 import datetime
 import io
+import json
 import logging
 import os
 import shutil
@@ -258,7 +259,11 @@ def same_fixer(impl_fx, model_fx):
     if impl_fx.get("errors") is not None and impl_fx.get("warnings") is not None and \
             (impl_fx["errors"], impl_fx["warnings"]) != (model_fx["errors"], model_fx["warnings"]):
         return False
-    return "msgs" not in impl_fx or impl_fx["msgs"] == model_fx["msgs"]
+    # the log is compared as a bag: in which order the columns of one table are parsed (and their messages logged)
+    # is promised by nothing; the per-block oracles judge which block a message belongs to
+    def bag(ms):
+        return sorted(json.dumps(m, sort_keys=True, default=str) for m in ms)
+    return "msgs" not in impl_fx or bag(impl_fx["msgs"]) == bag(model_fx["msgs"])
 
 
 def ascii_stream():
@@ -1612,7 +1617,9 @@ def run(tier, seed, model_ok, translator, search=False):
                 lines = txt.split("\n")[1:]
                 got = rc.canon_msgs(join_message_lines(lines))
                 want = mfix["msgs"]
-                if got[-len(want):] != want:
+                def _bag(ms):
+                    return sorted(json.dumps(m, sort_keys=True, default=str) for m in ms)
+                if _bag(got[-len(want):]) != _bag(want):      # a bag: the order of the columns' messages is free
                     out.mismatch("strict failure: messages in the error text vs the lenient model run", case, got, want)
                 want_n = mfix["errors"] + mfix["warnings"]
                 if not _has_number(txt.split("\n")[0], want_n):
